@@ -92,6 +92,11 @@ def handleC07 : List String → String
       let ps := plansOf ir
       s!"chk={showTy (checkerType e)} ir={showTy ir.ty} plans={if ps.isEmpty then "-" else ";".intercalate ps}"
     | none => "bad-op")
+  | ["ctype", e] =>
+    -- the const evaluator's type for the same tree (names are consts): the checker's typing, by syntax
+    (match parseWhole e with
+    | some e => showTy (checkerType e)
+    | none => "bad-op")
   | ["bind", pos, annot, e] =>
     (match parseWhole e, annot with
     | some e, "int" | some e, "float" =>
